@@ -18,6 +18,8 @@ squared distances ints in units of 1/4096.  See harness/cont_common.py for the p
     hread k      (the rows v_k shows now) | hraw k i x…  (v_k[i] = x)
     radius x… r | knn x… k | nir a r | nn a k
     dists x… [: a b …] | diffs x… [: a b …] | inb x… | correct x…
+  Points may have the wrong number of coordinates (numpy broadcasting / `ValueError`: `bcast`, `queryPoint` in the model);
+  not modelled and `bad-op`: empty vectors, wrong lengths on a 1-D space, wrong lengths for `compat` / `hraw`.
 -/
 open Mesa.Cont
 
@@ -134,6 +136,9 @@ def fmtRes (r : Except Err (List (Aid × Int))) : String :=
   | .ok l => "ok res=" ++ fmtPairs l
   | .error e => fmtErr e
 
+/-- vectors the model does not speak about: empty ones, and wrong lengths on a 1-D space -/
+def badLen (nd : Nat) (p : List Int) : Bool := p.isEmpty || (nd == 1 && p.length != 1)
+
 def stepExp (s : ESpace) (nd : Nat) (ws : List String) : ESpace × String :=
   let bad := (s, "bad-op")
   match ws with
@@ -144,16 +149,16 @@ def stepExp (s : ESpace) (nd : Nat) (ws : List String) : ESpace × String :=
   | "set" :: a :: xs =>
     match a.toNat?, ints xs with
     | some a, some p =>
-      if p.length ≠ nd then bad else
-      match agentSet s a p with
+      if badLen nd p then bad else
+      match agentSetV s a p with
       | .ok s' => (s', "ok")
       | .error e => (s, fmtErr e)
     | _, _ => bad
   | "iadd" :: a :: xs =>
     match a.toNat?, ints xs with
     | some a, some v =>
-      if v.length ≠ nd then bad else
-      match agentIadd s a v with
+      if badLen nd v then bad else
+      match agentIaddV s a v with
       | .ok s' => (s', "ok")
       | .error e => (s, fmtErr e)
     | _, _ => bad
@@ -164,8 +169,8 @@ def stepExp (s : ESpace) (nd : Nat) (ws : List String) : ESpace × String :=
   | "raw" :: i :: xs =>
     match i.toNat?, ints xs with
     | some i, some p =>
-      if p.length ≠ nd then bad else
-      match rawWrite s i p with
+      if badLen nd p then bad else
+      match rawWriteV s i p with
       | .ok s' => (s', "ok")
       | .error e => (s, fmtErr e)
     | _, _ => bad
@@ -188,16 +193,19 @@ def stepExp (s : ESpace) (nd : Nat) (ws : List String) : ESpace × String :=
   | "radius" :: xs =>
     match ints xs with
     | some v =>
-      if v.length ≠ nd + 1 then bad else
-      (s, "ok res=" ++ fmtPairs (agentsInRadius s (v.take nd) (v.getD nd 0)))
+      match v.getLast? with
+      | some r =>
+        if badLen nd v.dropLast then bad else (s, fmtRes (agentsInRadiusV s v.dropLast r))
+      | none => bad
     | none => bad
   | "knn" :: xs =>
-    match ints (xs.take nd), (xs.drop nd).mapM String.toNat? with
-    | some pt, some [k] =>
-      if pt.length ≠ nd then bad else
-      match kNearest argsortPart s pt k with
-      | .ok l => (s, "ok res=" ++ fmtKnn (knnCanon (calcD2 s pt) l).2)
-      | .error e => (s, fmtErr e)
+    match ints xs.dropLast, xs.getLast?.bind String.toNat? with
+    | some pt, some k =>
+      if badLen nd pt then bad else
+      match kNearestV argsortPart s pt k, queryPoint s true pt with
+      | .ok l, .ok q => (s, "ok res=" ++ fmtKnn (knnCanon (calcD2 s q) l).2)
+      | .error e, _ => (s, fmtErr e)
+      | _, .error e => (s, fmtErr e)
     | _, _ => bad
   | ["nir", a, r] =>
     match a.toNat?, r.toInt? with
@@ -221,8 +229,8 @@ def stepExp (s : ESpace) (nd : Nat) (ws : List String) : ESpace × String :=
     | (xs, sub) =>
       match ints xs, (match sub with | none => some none | some l => (nats l).map some) with
       | some pt, some sub =>
-        if pt.length ≠ nd then bad else
-        match distancesOf s pt sub with
+        if badLen nd pt then bad else
+        match distancesOfV s pt sub with
         | .ok l => (s, "ok res=" ++ (match sub with
                                      | none => fmtPairs l
                                      | some _ => commas (l.map fun ad => s!"{ad.1}:{ad.2}")))
@@ -233,8 +241,8 @@ def stepExp (s : ESpace) (nd : Nat) (ws : List String) : ESpace × String :=
     | (xs, sub) =>
       match ints xs, (match sub with | none => some none | some l => (nats l).map some) with
       | some pt, some sub =>
-        if pt.length ≠ nd then bad else
-        match diffsOf s pt sub with
+        if badLen nd pt then bad else
+        match diffsOfV s pt sub with
         | .ok l => (s, "ok res=" ++ fmtVecs (match sub with
                                              | none => l.mergeSort (fun a b => decide (a.1 ≤ b.1))
                                              | some _ => l))
@@ -242,11 +250,15 @@ def stepExp (s : ESpace) (nd : Nat) (ws : List String) : ESpace × String :=
       | _, _ => bad
   | "inb" :: xs =>
     match ints xs with
-    | some p => if p.length ≠ nd then bad else (s, if inBounds s.cfg.dims p then "ok 1" else "ok 0")
+    | some p =>
+      if badLen nd p then bad else
+      (s, match inBoundsV s p with | .ok b => (if b then "ok 1" else "ok 0") | .error e => fmtErr e)
     | none => bad
   | "correct" :: xs =>
     match ints xs with
-    | some p => if p.length ≠ nd then bad else (s, "ok pos=" ++ fmtPos (torusCorrect s.cfg.dims p))
+    | some p =>
+      if badLen nd p then bad else
+      (s, match torusCorrectV s p with | .ok q => "ok pos=" ++ fmtPos q | .error e => fmtErr e)
     | none => bad
   | _ => bad
 
